@@ -19,6 +19,7 @@ import (
 	"github.com/ipni/go-libipni/ingest/schema"
 	"github.com/libp2p/go-libp2p/core/crypto"
 	"github.com/libp2p/go-libp2p/core/peer"
+	"github.com/multiformats/go-multibase"
 	"github.com/multiformats/go-multicodec"
 	"github.com/multiformats/go-multihash"
 
@@ -177,7 +178,7 @@ type corpusItem struct {
 
 func TestCheck(t *testing.T) {
 	r := vp.New("C13", "exploration",
-		"advertisements: product of {previous link} x {entries: NoEntries, dag-json link, dag-cbor link} x {0..2 addresses} x {context ID 0/1/64} x {metadata 0/1/1024} x {signature empty/non-empty} x {IsRm} x {extended providers absent / present with 0,1,2 providers} x {override} x {zero-length lists and byte strings empty / nil}; what is decoded must encode to the bytes it was decoded from, and a loaded value stored again must give the same CID; advertisements signed by the library with 0..2 further extended providers x {the provider's own entry with addresses and metadata, without both, without either} x {its position} x {override}, stored, loaded with both prototypes, validated and verified, then compared and stored again; entry chunks: 0..3 multihashes of mixed hash functions (sha2-256, sha2-512, identity, truncated sha2-256, a two-byte code (blake2b-256), a length of two varint bytes) x {next link}; both codecs; store twice through Linkproto; load with typed and with generic prototype. Decoder: for each corpus block every single-byte substitution, every truncation, CBOR header tokens / JSON structural tokens at every offset, all byte strings of length <=2, for both decoders and both codecs and for the generic-node unwrap path; after every block that the unwrap path rejects a small valid block is decoded and compared (a rejection leaves nothing behind). Non-trivial: values with at least one optional part or list element; decoder inputs other than the corpus itself.",
+		"advertisements: product of {previous link} x {entries: NoEntries, dag-json link, dag-cbor link} x {0..2 addresses} x {context ID 0/1/64} x {metadata 0/1/1024} x {signature empty/non-empty} x {IsRm} x {extended providers absent / present with 0,1,2 providers} x {override} x {zero-length lists and byte strings empty / nil}; what is decoded must encode to the bytes it was decoded from, and a loaded value stored again must give the same CID; advertisements signed by the library with 0..2 further extended providers x {the provider's own entry with addresses and metadata, without both, without either} x {its position} x {override}, stored, loaded with both prototypes, validated and verified, then compared and stored again; the provider and an extended provider written in 8 spellings (base58 and CID text of peer IDs, hex, no peer ID, empty) through both codecs and both load prototypes; entry chunks: 0..3 multihashes of mixed hash functions (sha2-256, sha2-512, identity, truncated sha2-256, a two-byte code (blake2b-256), a length of two varint bytes) x {next link}; both codecs; store twice through Linkproto; load with typed and with generic prototype. Decoder: for each corpus block every single-byte substitution, every truncation, CBOR header tokens / JSON structural tokens at every offset, all byte strings of length <=2, for both decoders and both codecs and for the generic-node unwrap path; after every block that the unwrap path rejects a small valid block is decoded and compared (a rejection leaves nothing behind). Non-trivial: values with at least one optional part or list element; decoder inputs other than the corpus itself.",
 		"equality is semantic: nil and empty are the same for non-optional lists and byte strings; optional parts must keep absent-vs-present",
 		"decoder inputs are within one token of a valid block or at most 2 bytes long",
 	)
@@ -333,6 +334,7 @@ func TestCheck(t *testing.T) {
 	}
 
 	checkSignedAds(r)
+	checkProviderSpellings(r)
 
 	// ---- entry chunks ----
 	// also multihashes whose code or whose length takes more than one byte of
@@ -617,6 +619,98 @@ func TestCheck(t *testing.T) {
 		}
 	}
 	t.Logf("violations: %d", r.Violations())
+}
+
+// checkProviderSpellings: the provider of an advertisement (and of an extended
+// provider entry) is a string, and it comes back as the string it was: the
+// base58 text of a peer ID, the CID text of the same peer ID (base32 and
+// base36), a hex string, something that is no peer ID at all, the empty
+// string; both codecs, through BytesToAdvertisement and through a stored block
+// loaded with the typed and the generic prototype.
+func checkProviderSpellings(r *vp.Recorder) {
+	id := fixture.Key("ed25519", 0).ID
+	b36, err := peer.ToCid(id).StringOfBase(multibase.Base36)
+	if err != nil {
+		panic(err)
+	}
+	spellings := []string{id.String(), peer.ToCid(id).String(), b36, fixture.Key("rsa", 0).ID.String(), peer.ToCid(fixture.Key("secp256k1", 0).ID).String(), "1220aabbcc", "not a peer id", ""}
+	for si, sp := range spellings {
+		for _, where := range []string{"provider", "extended-provider", "both"} {
+			key := fmt.Sprintf("provider-spelling|%d|%s", si, where)
+			if !r.Mine(key) {
+				continue
+			}
+			r.Eval(key, true)
+			ad := buildAd(adShape{prev: true, entries: 1, nAddrs: 1, ctxLen: 1, mdLen: 1, sig: true, ep: 3})
+			if where != "extended-provider" {
+				ad.Provider = sp
+			}
+			if where != "provider" {
+				ad.ExtendedProvider.Providers[1].ID = sp
+			}
+			want := adCanon(&ad)
+			node, err := ad.ToNode()
+			if err != nil {
+				r.Violation("provider-spelling:ToNode", key, err.Error(), nil)
+				continue
+			}
+			bad := false
+			for _, codec := range codecs {
+				data, err := encode(node, codec)
+				if err != nil {
+					r.Violation("provider-spelling:encode-error", key, err.Error(), nil)
+					bad = true
+					continue
+				}
+				back, err := schema.BytesToAdvertisement(cidFor(codec), data)
+				if err != nil {
+					r.Violation(fmt.Sprintf("provider-spelling:decode-error:codec=%x", codec), key, err.Error(), nil)
+					bad = true
+					continue
+				}
+				if got := adCanon(&back); got != want {
+					r.Violation("provider-spelling:roundtrip-differs", key, fmt.Sprintf("provider written as %q (%s): decode(encode(ad)) differs:\n got  %s\n want %s", sp, where, got, want), nil)
+					bad = true
+				}
+			}
+			lsys := cidlink.DefaultLinkSystem()
+			store := &memstore.Store{}
+			lsys.SetReadStorage(store)
+			lsys.SetWriteStorage(store)
+			l1, err := lsys.Store(ipld.LinkContext{}, schema.Linkproto, node)
+			if err != nil {
+				r.Violation("provider-spelling:store-error", key, err.Error(), nil)
+				continue
+			}
+			for _, proto := range []ipld.NodePrototype{basicnode.Prototype.Any, schema.AdvertisementPrototype} {
+				n, err := lsys.Load(ipld.LinkContext{}, l1, proto)
+				if err != nil {
+					r.Violation("provider-spelling:load-error", key, err.Error(), nil)
+					bad = true
+					continue
+				}
+				la, err := schema.UnwrapAdvertisement(n)
+				if err != nil {
+					r.Violation("provider-spelling:unwrap-error", key, err.Error(), nil)
+					bad = true
+					continue
+				}
+				if got := adCanon(la); got != want {
+					r.Violation("provider-spelling:loaded-value-differs", key, fmt.Sprintf("provider written as %q (%s): the loaded advertisement reads\n %s\nstored was\n %s", sp, where, got, want), nil)
+					bad = true
+					continue
+				}
+				n3, _ := la.ToNode()
+				if l3, err := lsys.Store(ipld.LinkContext{}, schema.Linkproto, n3); err != nil || !l3.(cidlink.Link).Cid.Equals(l1.(cidlink.Link).Cid) {
+					r.Violation("provider-spelling:cid-changes-after-load-and-store", key, fmt.Sprintf("provider written as %q: %v (err %v)", sp, l3, err), nil)
+					bad = true
+				}
+			}
+			if !bad {
+				r.Outcome("provider-spelling-ok")
+			}
+		}
+	}
 }
 
 // checkSignedAds: advertisements signed by the library (Sign,
